@@ -1,5 +1,6 @@
 import PGV.Proofs.Walker
 import PGV.Proofs.Frame
+import PGV.Proofs.Tree
 
 /-!
 # C02 — every violated rule is reported once, in order; nil iff none
@@ -322,6 +323,126 @@ theorem C02_field_closed_form (ext : Ext) (fns : FnTables) (scope sn fname : Byt
     rw [field_one_step ext fns scope sn fname v descend hd, fieldItems]
     congr 1; funext a
     rw [ih]
+
+/-! ### the whole tree in closed form: the walker's output is the report of `Spec.Clauses`
+
+`Spec.Clauses` writes the list of rule instances of a value tree down without any state: the report of
+a struct is the concatenation of the reports of its fields in declaration order, that of a field the
+concatenation of its items' contributions in rule order (exactly one contribution per item), that of
+a collection the concatenation over its elements in index order, and the report of a marked
+sub-object stands where the `required` / `exist` item stands.  The walker — which threads the error
+buffer and the group table through `validate` / `exist` — yields, from ANY state, that state extended
+by the report: for every configuration and every value tree, of any depth and width. -/
+
+open PGV.Spec.Clauses PGV.Proofs.Tree in
+theorem C02_tree_report (cfg : StructCfg) (name : Bytes) (v : GoVal) (g : Bool) (st : WSt) :
+    validate cfg name v g st = (sValidate cfg name v g >>= fun evs => pure (replay evs st)) :=
+  validate_spec cfg name v g st
+
+open PGV.Spec.Clauses PGV.Proofs.Tree in
+theorem C02_fields_report (cfg : StructCfg) (sn : Bytes) (cus : RM) (fs : Fields) (st : WSt) :
+    fieldsLoop cfg sn cus fs st = (sFields cfg sn cus fs >>= fun evs => pure (replay evs st)) :=
+  fieldsLoop_spec cfg sn cus fs st
+
+open PGV.Spec.Clauses PGV.Proofs.Tree in
+theorem C02_elements_report (cfg : StructCfg) (path : Bytes) (i : Nat) (es : GoVals) (st : WSt) :
+    elemsLoop cfg path i es st = (sElems cfg path i es >>= fun evs => pure (replay evs st)) :=
+  elemsLoop_spec cfg path i es st
+
+open PGV.Spec.Clauses PGV.Proofs.Tree in
+theorem C02_entries_report (cfg : StructCfg) (pathOpen : Bytes) (es : Entries) (st : WSt) :
+    entriesLoop cfg pathOpen es st = (sEntries cfg pathOpen es >>= fun evs => pure (replay evs st)) :=
+  entriesLoop_spec cfg pathOpen es st
+
+open PGV.Spec.Clauses in
+/-- extending a state by a report appends the report's clause texts, in order, to the buffer … -/
+theorem C02_replay_buf (evs : List Ev) (st : WSt) : (replay evs st).buf = st.buf ++ textOf evs := by
+  induction evs generalizing st with
+  | nil => simp [replay, textOf]
+  | cons e evs ih =>
+    show (replay evs (Ev.apply st e)).buf = _
+    rw [ih]
+    cases e <;> simp [Ev.apply, textOf, WSt.write, WSt.mark]
+
+open PGV.Spec.Clauses in
+/-- … and its group members, in order, to the group table; nothing already there is touched -/
+theorem C02_replay_members (evs : List Ev) (st : WSt) :
+    (replay evs st).members = st.members ++ membersOf evs := by
+  induction evs generalizing st with
+  | nil => simp [replay, membersOf]
+  | cons e evs ih =>
+    show (replay evs (Ev.apply st e)).members = _
+    rw [ih]
+    cases e <;> simp [Ev.apply, membersOf, WSt.write, WSt.mark]
+
+open PGV.Spec.Clauses in
+theorem C02_text_append (a b : List Ev) : textOf (a ++ b) = textOf a ++ textOf b := by
+  induction a with
+  | nil => rfl
+  | cons e a ih => cases e <;> simp [textOf, ih]
+
+open PGV.Spec.Clauses in
+theorem C02_members_append (a b : List Ev) : membersOf (a ++ b) = membersOf a ++ membersOf b := by
+  induction a with
+  | nil => rfl
+  | cons e a ih => cases e <;> simp [membersOf, ih]
+
+open PGV.Spec.Clauses PGV.Proofs.Tree in
+/-- **the call**: `Struct(v)` on a struct (behind any number of pointers) returns the clause texts of
+the tree's report, in report order, followed by the clauses of the groups registered in the report —
+`nil` exactly when all of them are empty (`C02_nil_iff`) -/
+theorem C02_struct_call (cfg : StructCfg) (tstr : Bytes) (v : GoVal) (t n : Bytes) (tm : Bool) (fs : Fields)
+    (hv : v.stripPtr = some (.struct t n tm fs)) :
+    structValid cfg (.val tstr v)
+      = (sValidate cfg [] (.struct t n tm fs) false >>= fun evs =>
+          groupClauses cfg.ext (membersOf evs) >>= fun gs =>
+          pure { main := textOf evs, groups := gs.filter (!·.isEmpty), marks := (replay evs {}).marks }) := by
+  unfold structValid
+  simp only [hv]
+  rw [validate_spec]
+  unfold runS
+  cases sValidate cfg [] (.struct t n tm fs) false with
+  | error e => rfl
+  | ok evs =>
+    show finish cfg.ext (replay evs {})
+      = (groupClauses cfg.ext (membersOf evs) >>= fun gs =>
+          pure { main := textOf evs, groups := gs.filter (!·.isEmpty), marks := (replay evs {}).marks })
+    unfold finish
+    rw [C02_replay_buf, C02_replay_members]
+    simp only [List.nil_append]
+
+open PGV.Spec.Clauses in
+/-- a struct's report: its first field's, then the others' (declaration order) — at the level of the
+clause text -/
+theorem C02_report_fields_text (cfg : StructCfg) (sn : Bytes) (cus : RM) (name : Bytes) (tags : List (Bytes × Bytes))
+    (v : GoVal) (rest : Fields) (a b : List Ev)
+    (ha : sRules cfg.ext cfg.fns sn sn name v (fun k skip c => sExistTop cfg sn name v k skip c) false
+            (validNamesSplit (effectiveRule cfg cus name tags)) = .ok a)
+    (hne : (effectiveRule cfg cus name tags).isEmpty = false)
+    (hb : sFields cfg sn cus rest = .ok b) :
+    (sFields cfg sn cus (.cons name true false tags v rest)).map textOf = .ok (textOf a ++ textOf b) := by
+  rw [sFields]
+  unfold effectiveRule at ha hne
+  simp only [Bool.not_true, Bool.false_or, hne, Bool.false_eq_true, if_false, ha, hb]
+  show Except.ok (textOf (a ++ b)) = _
+  rw [C02_text_append]
+
+/-- non-vacuity of the tree report: a struct with a violated field rule, a nested object reached by
+`exist` with its own violation, and an `either` pair — the report's text is the error -/
+example :
+    (match structValid { ext := fun _ => none }
+        (.val (b! "main.T")
+          (.struct (b! "main.T") (b! "T") false
+            (.cons (b! "A") true false [(b! "valid", b! "ge=5")] (.int 0 3)
+            (.cons (b! "B") true false [(b! "valid", b! "exist")]
+                (.struct (b! "main.U") (b! "U") false
+                  (.cons (b! "X") true false [(b! "valid", b! "required")] (.str [])
+                  (.cons (b! "Y") true false [] (.int 0 1) .nil)))
+            .nil)))) with
+     | .ok o => o.err o.groups
+     | _ => none)
+    = some (b! "\"T.A\" input \"3\", explain: it is less than 5 num-size; \"T.B.X\" input \"\", explain: it is required") := by
+  decide
 
 /-- non-vacuity: two violated rules on one `Var` value give two clauses in rule order, one separator -/
 example :
